@@ -48,7 +48,8 @@ def plans_for(stream, rng, nrand):
         plans.append(list(range(1, n + 1)))
     else:
         ic = interesting_cuts(stream)
-        for c in rng.sample(ic, min(len(ic), 12)):
+        # few line ends (long lines, e.g. near-limit trailers): cut next to every one of them; otherwise a sample
+        for c in (ic if len(ic) <= 160 else rng.sample(ic, 12)):
             plans.append([c, n])
     ic = interesting_cuts(stream)
     for _ in range(nrand):
